@@ -38,6 +38,7 @@ type LoopAnn struct {
 	Unroll int
 	Invs   []string // names of invariant functions
 	Decr   string   // name of the variant function (int-valued), optional
+	Modifies []string // local variables (slices, pointers, maps) whose referents the loop body may write
 }
 
 func hasProp(d *Directive, id string) bool {
